@@ -387,7 +387,9 @@ class IntervalTier(textgrid_tier.TextgridTier):
                     # so if we've found it, move on
                     break
 
-            newMax = newTier.maxTimestamp - diff
+            # The shrunk span can never end before the erased region began
+            # (the subtraction may round below it)
+            newMax = max(start, newTier.maxTimestamp - diff)
             newTier = newTier.new(entries=newEntryList, maxTimestamp=newMax)
 
         return newTier
